@@ -204,9 +204,42 @@ def check(case, ctx):
                 break
         ctx.notes["null-recomputed"] += 1
     else:
+        # the draws did not have the expected shape (a refactor may draw relabellings differently): fall back to the SET of values
+        # that genuine relabellings of subjects can produce -- every null value must be the largest component size under one of them
         ctx.notes["null-recorder-degraded"] += 1
         if np.any(null < 0) or np.any(null != np.round(null)) or np.any(null > len(ii)):
             fails.append(Failure("nbs_bct:null-values-out-of-range", "%s" % null.tolist(), case))
+        else:
+            import itertools
+            D0 = np.hstack((X, Y))
+            achievable = None
+            if paired and nx <= 10:
+                achievable = set()
+                for bits in itertools.product((1.0, -1.0), repeat=nx):
+                    sgn = np.array(bits)[None, :]
+                    d = D0 * np.hstack((sgn, sgn))
+                    tp = _tstats(d[:, :nx], d[:, -nx:], True, tail)
+                    if np.any(np.abs(tp - thresh) < 1e-9) or np.any(np.isinf(tp)):
+                        achievable = None
+                        break
+                    achievable.add(_max_component(n, ii, jj, tp > thresh))
+            elif not paired:
+                from math import comb
+                if comb(nx + ny, nx) <= 2000:
+                    achievable = set()
+                    for grp in itertools.combinations(range(nx + ny), nx):
+                        rest = [c for c in range(nx + ny) if c not in grp]
+                        tp = _tstats(D0[:, list(grp)], D0[:, rest], False, tail)
+                        if np.any(np.abs(tp - thresh) < 1e-9):
+                            achievable = None
+                            break
+                        achievable.add(_max_component(n, ii, jj, tp > thresh))
+            if achievable is not None:
+                ctx.notes["null-checked-against-achievable-set"] += 1
+                bad = [v for v in null.tolist() if v not in achievable]
+                if bad:
+                    fails.append(Failure("nbs_bct:null-value-not-achievable-by-any-relabelling-of-subjects",
+                                         "null contains %s; relabellings of subjects can only give %s" % (sorted(set(bad)), sorted(achievable)), case))
 
     # --- metamorphic: swap groups + mirror tail; reorder subjects -------------
     ref = _partition_of_edges(adj, ii, jj)
